@@ -4,7 +4,7 @@
 # quick check against the patched worktree (tools/run_seed.sh) and record what was seen in meta.json.
 p=$1; k=$2; r=${3:-5}
 src=/tmp/seed/$p/r$r/m$k; dst=/verif/seeded/$p-r${r}m$k
-mkdir -p $dst; cp $src/patch.diff $src/demo.py $src/meta.json $dst/
+mkdir -p $dst; [ -f $dst/meta.json ] || cp $src/patch.diff $src/demo.py $src/meta.json $dst/
 cd /verif
 v=$(tools/verify_seed.sh seeded/$p-r${r}m$k 2>&1 | tail -1)
 c=$(tools/run_seed.sh $p seeded/$p-r${r}m$k 2>&1 | tail -1)
@@ -13,8 +13,11 @@ import json,sys
 dst,p,v,c=sys.argv[1:5]
 m=json.load(open(dst+'/meta.json'))
 caught='VIOLATION' in c
+prev=m.get('verified_by_coordinator')
+if prev and prev.get('status')=='missed-first-run' and 'first_run' not in m:
+    m['first_run']=prev
 m['verified_by_coordinator']={'ran':f'tools/verify_seed.sh (suite + demo with/without patch in a scratch worktree of /repo HEAD); tools/run_seed.sh {p} (VERIF_REPO=<worktree+patch> ./check {p} --tier quick)',
-  'verify':v,'check':c,'status':'caught-first-run' if caught else 'missed-first-run'}
+  'verify':v,'check':c,'status':('caught-after-strengthening' if 'first_run' in m else 'caught-first-run') if caught else 'missed-first-run'}
 json.dump(m,open(dst+'/meta.json','w'),indent=1)
 print(p,dst.split('/')[-1],'CAUGHT' if caught else 'MISSED','|',v,'|',c[-200:])
 PY
